@@ -34,7 +34,8 @@ func VerifC13_HTLCBeginBlock() {
 	timeLimited := verifBool("timeLimited")
 	asset := types.AssetParam{Denom: hDenom,
 		SupplyLimit: types.SupplyLimit{Limit: verifIntIn("limit", zero, verifPow2(70)), TimeLimited: timeLimited, TimePeriod: time.Hour, TimeBasedLimit: verifIntIn("timeLimit", zero, w)},
-		Active:      true, DeputyAddress: deputy.String(), FixedFee: sdkmath.NewInt(1), MinSwapAmount: sdkmath.NewInt(1), MaxSwapAmount: sdkmath.NewInt(1000000),
+		// the asset may have been paused by a parameter change after the contracts were created
+		Active: verifBool("active"), DeputyAddress: deputy.String(), FixedFee: sdkmath.NewInt(1), MinSwapAmount: sdkmath.NewInt(1), MaxSwapAmount: sdkmath.NewInt(1000000),
 		MinBlockLock: types.MinTimeLock, MaxBlockLock: types.MaxTimeLock}
 	p := types.Params{AssetParams: []types.AssetParam{asset}}
 	verifAssume(p.Validate() == nil)
